@@ -4,13 +4,17 @@
    configurations, all message sequences and all oracle behaviours satisfying the stated premises. *)
 From AQ Require Import lib.Base gen.TlsDispatch model.TlsSymbolic.
 From AQ Require Import gen.TlsTranscript proofs.TlsSymbolicP1 proofs.TlsSymbolicP2 proofs.TlsSymbolicP4 proofs.TlsSymbolicP5 proofs.TlsSymbolicP3 proofs.TlsSymbolicPGen.
+From AQ Require Import gen.TlsNames model.TlsVerifyCert proofs.TlsNamesP.
 From AQ Require Import model.TlsTwoParty proofs.TlsTwoPartyP1 proofs.TlsTwoPartyP2 proofs.TlsTwoPartyP3 proofs.TlsTwoPartyP4 proofs.TlsTwoPartyP5 proofs.TlsTwoPartyP6 proofs.TlsTwoPartyP7.
 
 (* every message sequence, every oracle behaviour (no cryptographic premise needed): a client that reaches
    CLIENT_POST_HANDSHAKE verified a CertificateVerify (advertised algorithm) under the leaf of the certificate
    list it holds, over a transcript that begins with its own ClientHello and is a prefix of the final
    transcript, and - unless CERT_NONE - cert_ok accepted that list for the requested name; or it offered a valid
-   ticket, a ServerHello selected it, and the schedule in use descends from that ticket's resumption secret *)
+   ticket, a ServerHello selected it, and the schedule in use descends from that ticket's resumption secret.
+   "The requested name" is verify_name c (cert_authed: o_cert_ok O (verify_name c) (t_peer s) = 0), and verify_name c is
+   the CONFIGURED server_name, IP literals included - not sni_of_name, the IP-stripped value of the ClientHello
+   extension (name_flow_as_modelled below ties both to the expressions found in the current source) *)
 Theorem client_completion_authenticated :
   forall (O : oracles) (c : cfg) (ms : list bytes),
     let s := run O c (client_started O c) ms in
@@ -19,6 +23,55 @@ Theorem client_completion_authenticated :
     (t_resumed s = true /\ psk_keyed O c (the_ks s)).
 Proof. exact client_completion_authenticated_lemma. Qed.
 Print Assumptions client_completion_authenticated.
+
+(* WHICH name: the name flow re-extracted from the current tls.py / connection.py (every store to self._server_name,
+   the server_name= arguments of ClientHello / verify_certificate / SessionTicket, the guard of the verify_certificate
+   call, the trust arguments, the QuicConnection -> tls.Context hand-over), evaluated over the IP-literal oracle:
+   self._server_name is the constructor's argument unchanged; verify_certificate receives THAT (verify_name c =
+   f_server_name c); only the ClientHello receives the value with IP literals replaced by None (sni_of_name) *)
+Theorem name_flow_as_modelled :
+  forall (O : oracles) (c : cfg),
+  flow_attr O gen_name_flow (f_server_name c) = Some (attr_server_name c) /\
+  flow_read O gen_name_flow (f_server_name c) (nf_verify gen_name_flow) = Some (verify_name c) /\
+  flow_read O gen_name_flow (f_server_name c) (nf_sni gen_name_flow) = Some (ch_server_name (hello_base O c)) /\
+  flow_read O gen_name_flow (f_server_name c) (nf_ticket gen_name_flow) = Some (f_server_name c) /\
+  verify_name c = f_server_name c /\
+  ch_server_name (hello_base O c) = sni_of_name O (f_server_name c) /\
+  (nf_verify_guard gen_name_flow = 2 /\ nf_trust_passthrough gen_name_flow = 1 /\
+   nf_verify_mode_default gen_name_flow = 1 /\ nf_quic_passthrough gen_name_flow = 1).
+Proof. exact name_flow_as_modelled_lemma. Qed.
+Print Assumptions name_flow_as_modelled.
+
+(* verify_certificate(): the statement list re-extracted from the current source (dates, `if server_name is not None`,
+   ip_address() selecting the IP / hostname matcher and its arguments, both exception handlers, trust store, chain
+   verification, alerts), interpreted over the oracles, is the decision function of model/TlsVerifyCert.v *)
+Theorem verify_certificate_as_modelled :
+  forall V cert chain name, vc_interp V cert chain name gen_verify_certificate = vc_decide V cert chain name.
+Proof. exact verify_certificate_as_modelled_lemma. Qed.
+Print Assumptions verify_certificate_as_modelled.
+
+(* the identity check is never skipped: every oracle record whose X.509 verdict is verify_certificate's decision
+   structure over ANY matcher / date / chain oracles V, every configuration with verification on, every message
+   sequence: a client that completes without resumption ran verify_certificate to a normal return for its CONFIGURED
+   name; dates and chain were checked; and when a name is configured (DNS name or IP literal) the matcher for that kind
+   of name was consulted about (leaf, configured name) and accepted - while the SNI carried the name only if it is not
+   an IP literal.  (No name configured: chain and dates only - the application requested no name.) *)
+Theorem identity_check_never_skipped :
+  forall (O : oracles) (V : vc_oracles) (c : cfg) (ms : list bytes),
+    let O' := with_vc O V in
+    let s := run O' c (client_started O' c) ms in
+    t_state s = CLIENT_POST_HANDSHAKE -> t_resumed s = false -> f_verify c = true ->
+    let leaf := hd [] (t_peer s) in
+    let chain := tl (t_peer s) in
+    exists tr,
+      vc_decide V leaf chain (f_server_name c) = (0, tr) /\
+      v_not_yet V leaf = false /\ v_expired V leaf = false /\
+      v_chain V leaf chain = true /\ In (EvChain leaf chain) tr /\
+      forall n, f_server_name c = Some n ->
+        (if v_is_ip V n then In (EvIp leaf n) tr /\ v_ip V leaf n = 0 else In (EvHost leaf n) tr /\ v_host V leaf n = 0) /\
+        ch_server_name (hello_base O' c) = (if v_is_ip V n then None else Some n).
+Proof. exact identity_check_never_skipped_lemma. Qed.
+Print Assumptions identity_check_never_skipped.
 
 (* tie of the hand-written model to the current source: the per-handler transcript skeleton (what is hashed, when,
    relative to which derivation / MAC / signature / comparison; labels; negotiate preference order), the suite and
